@@ -30,10 +30,10 @@ Proof.
   unfold has in *. cbn [existsb]. rewrite (byte_eqb_sym "e"%byte c), (byte_eqb_sym "E"%byte c), P1, P2, P3, A, B, C. auto.
 Qed.
 
-Theorem canon_float_ok : forall t, canon_float t = true ->
+Theorem canon_fixed_ok : forall t, canon_fixed t = true ->
   forallb plainc t = true /\ float_ok t = true /\ str_eqb t dot = false.
 Proof.
-  intros t H. unfold canon_float in H.
+  intros t H. unfold canon_fixed in H.
   set (s := match t with c :: r => if byte_eqb c "-"%byte then r else t | [] => [] end) in *.
   destruct (split1 "."%byte s) as [[a b]|] eqn:S; [|discriminate H].
   rewrite !andb_true_iff in H. destruct H as [[[[[[[[Da Db] Na] Nb] _] _] _] _] _].
@@ -57,3 +57,55 @@ Proof.
     destruct a; [discriminate Na|]. reflexivity.
   - destruct (str_eqb t dot) eqn:E; [|reflexivity]. apply str_eqb_eq in E. subst t. subst s. cbn in S. inversion S; subst. cbn in Na. discriminate Na.
 Qed.
+
+(* the exponent form *)
+Lemma plainc_consts : plainc "."%byte = true /\ plainc "e"%byte = true /\ plainc "-"%byte = true /\ plainc "+"%byte = true.
+Proof. repeat split; reflexivity. Qed.
+Theorem canon_exp_ok : forall t, canon_exp t = true -> forallb plainc t = true /\ float_ok t = true /\ str_eqb t dot = false.
+Proof.
+  intros t H. unfold canon_exp in H.
+  set (s := match t with c :: r => if byte_eqb c "-"%byte then r else t | [] => [] end) in *.
+  destruct (split1 "e"%byte s) as [[m e]|] eqn:S; [|discriminate H].
+  apply andb_prop in H. destruct H as [H He]. apply andb_prop in H. destruct H as [Hm _].
+  destruct (split1_spec _ _ _ _ S) as [Es _].
+  destruct e as [|sg ds]; [discriminate He|]. apply andb_prop in He. destruct He as [Dd He].
+  destruct (Z_of_dec ds) as [z|] eqn:Zd; [|discriminate He]. apply andb_prop in He. destruct He as [Hds Hsg].
+  assert (Sg : (byte_eqb sg "-"%byte || byte_eqb sg "+"%byte) = true).
+  { destruct (byte_eqb sg "-"%byte); [reflexivity|]. apply andb_prop in Hsg. destruct Hsg as [Hsg _]. apply andb_prop in Hsg. exact (proj1 Hsg). }
+  assert (Nd : ds <> []) by (intros ->; discriminate Zd).
+  destruct (digits_plain ds Dd) as [Pd _].
+  (* the mantissa *)
+  assert (M : forallb plainc m = true /\ unsigned_dec_ok m = true /\ exists c0 r0, m = c0 :: r0 /\ is_digit c0 = true).
+  { unfold unsigned_dec_ok. destruct (split1 "."%byte m) as [[a b]|] eqn:Sm.
+    - repeat (apply andb_prop in Hm; destruct Hm as [Hm ?]). destruct (split1_spec _ _ _ _ Sm) as [Em _].
+      destruct (digits_plain a) as [Pa _]; [assumption|]. destruct (digits_plain b) as [Pb _]; [assumption|].
+      match goal with A : all_digits a = true, B : all_digits b = true |- _ => rewrite A, B end.
+      destruct a as [|c0 a']; [discriminate Hm|]. split; [|split].
+      + rewrite Em, forallb_app. cbn [forallb] in Pa |- *. rewrite Pa, Pb. reflexivity.
+      + reflexivity.
+      + exists c0, (a' ++ "."%byte :: b). split; [rewrite Em; reflexivity|].
+        match goal with A : all_digits (c0 :: a') = true |- _ => unfold all_digits in A; cbn [forallb] in A; apply andb_prop in A; exact (proj1 A) end.
+    - apply andb_prop in Hm. destruct Hm as [Hm _]. apply andb_prop in Hm. destruct Hm as [Hl Dm].
+      destruct (digits_plain m Dm) as [Pm _]. rewrite Dm. destruct m as [|c0 r0]; [discriminate Hl|]. split; [exact Pm|]. split; [reflexivity|].
+      exists c0, r0. split; [reflexivity|]. unfold all_digits in Dm. cbn [forallb] in Dm. apply andb_prop in Dm. exact (proj1 Dm). }
+  destruct M as [Pm [Um [c0 [r0 [Em Dc0]]]]].
+  assert (Psg : plainc sg = true) by (destruct (byte_eqb sg "-"%byte) eqn:E1; [apply byte_eqb_eq in E1; subst; reflexivity|];
+                                      cbn [orb] in Sg; apply byte_eqb_eq in Sg; subst; reflexivity).
+  assert (Ps : forallb plainc s = true) by (rewrite Es, forallb_app; cbn [forallb]; rewrite Pm, Psg, Pd; reflexivity).
+  assert (forallb plainc t = true /\ drop_sign t = s) as [Pt Ds].
+  { assert (Es0 : s = c0 :: (r0 ++ "e"%byte :: sg :: ds)) by (rewrite Es, Em; reflexivity).
+    subst s. destruct t as [|c r]; [discriminate Es0|]. destruct (byte_eqb c "-"%byte) eqn:E.
+    - apply byte_eqb_eq in E. subst c. split; [cbn [forallb]; rewrite Ps; reflexivity|reflexivity].
+    - split; [exact Ps|]. inversion Es0; subst. destruct (digit_props c0 Dc0) as [_ [_ [_ [M1 [P1 _]]]]].
+      cbn [drop_sign]. rewrite M1, P1. reflexivity. }
+  split; [exact Pt|]. split.
+  - unfold float_ok. destruct (plainc_no _ Pt) as [_ [_ Wt]]. rewrite (strip_nows t Wt), Ds, S, Um.
+    cbn [drop_sign]. rewrite Sg, Dd. destruct ds; [congruence|reflexivity].
+  - destruct (str_eqb t dot) eqn:E; [|reflexivity]. apply str_eqb_eq in E. subst t. discriminate S.
+Qed.
+Theorem canon_float_ok : forall t, canon_float t = true ->
+  forallb plainc t = true /\ float_ok t = true /\ str_eqb t dot = false.
+Proof. intros t H. unfold canon_float in H. apply orb_prop in H. destruct H as [H|H]; [apply canon_fixed_ok|apply canon_exp_ok]; exact H. Qed.
+Lemma canon_exp_ex : forallb canon_float (map bs ["1e-05"; "2.5e-07"; "1e+16"; "-1.5e+20"; "1.234e-05"; "1e+100"; "-3e-10"; "12.25"; "0.0001"]%bs) = true
+  /\ existsb canon_float (map bs ["1e-5"; "1e-04"; "1e+15"; "10e-05"; "1.0e-05"; "1.50e-07"; "1e16"; "0e-05"; "1E-05"; "1e-005"; "e-05"; "0.00001"; "-0.0"]%bs) = false.
+Proof. split; vm_compute; reflexivity. Qed.
